@@ -1,3 +1,4 @@
+use std::collections::HashSet;
 use std::io::Write;
 
 use nix::sys::signal::Signal;
@@ -126,7 +127,8 @@ pub fn waitpidx(wpid: i32, block: bool) -> types::WaitStatus {
 
 pub fn wait_fg_job(sh: &mut shell::Shell, gid: i32, pids: &[i32]) -> CommandResult {
     let mut cmd_result = CommandResult::new();
-    let mut count_waited = 0;
+    // the members that have exited or are stopped right now
+    let mut settled: HashSet<i32> = HashSet::new();
     let count_child = pids.len();
     if count_child == 0 {
         return cmd_result;
@@ -150,8 +152,12 @@ pub fn wait_fg_job(sh: &mut shell::Shell, gid: i32, pids: &[i32]) -> CommandResu
 
         let pid = ws.get_pid();
         let is_a_fg_child = pids.contains(&pid);
-        if is_a_fg_child && !ws.is_continued() {
-            count_waited += 1;
+        if is_a_fg_child {
+            if ws.is_continued() {
+                settled.remove(&pid);
+            } else {
+                settled.insert(pid);
+            }
         }
 
         if ws.is_exited() {
@@ -189,7 +195,7 @@ pub fn wait_fg_job(sh: &mut shell::Shell, gid: i32, pids: &[i32]) -> CommandResu
             cmd_result.status = status;
         }
 
-        if count_waited >= count_child {
+        if settled.len() >= count_child {
             break;
         }
     }
